@@ -281,12 +281,12 @@ def concmon(bin_dir, mon, label, seed, tier, n=None, timeout=3000):
     return {"label": label, "argv": argv, "env": {}, "timeout": timeout, "on_crash": "violation"}
 
 
-def miri_jobs(prop, tests, nseeds, seed):
+def miri_jobs(prop, tests, nseeds, seed, alias="off"):
     js = []
     for t in tests:
         for k in range(nseeds):
             js.append({"label": f"miri-{t}-{k}", "argv": ["python3", os.path.join(VERIF, "lib", "miri_job.py"), "concmon", "miri", t,
-                                                            str(seed * 100 + k), str(seed * 1000 + k), "{out}", prop],
+                                                            str(seed * 100 + k), str(seed * 1000 + k), "{out}", prop, alias],
                        "env": {}, "timeout": 3400, "on_crash": "inconclusive"})
     return js
 
@@ -306,8 +306,8 @@ def c19_jobs(tier, seed, bin_dir, replay):
     k = 4 if q else 16
     js = [concmon(bin_dir, "pool", f"pool-{i}", seed * 100 + i, tier, n=(300 if q else 3000)) for i in range(k)]
     js += [concmon(bin_dir, "shared", f"shared-{i}", seed * 100 + i, tier, n=(240 if q else 3000)) for i in range(k)]
-    js += miri_jobs("C19", ["pool_spawn_trees", "shared_structures", "rol_three_roles"], 6 if q else 64, seed)
-    js += miri_jobs("C19", ["witness_pool_drop_aliasing"], 1, seed)
+    js += miri_jobs("C19", ["pool_spawn_trees", "shared_structures", "rol_three_roles", "cvec_logical_exclusion"], 6 if q else 64, seed)
+    js += miri_jobs("C19", ["witness_pool_drop_aliasing"], 1, seed, alias="tb")
     return js
 
 
@@ -320,11 +320,11 @@ PLANS["C17"] = {
     "rule": "sequential: every op sequence (union/find/find_naive/reset) up to a length bound over 2-5 ids exhaustively, plus random longer ones, compared with a partition model after every op. concurrent: recorded histories of 2-8 threads on a hot id space with resizes and armed perturbation hooks, checked offline against necessary linearizability conditions of the monotone union-find; the same scenarios scaled down under Miri (UB/data-race interpreter, one scheduler seed per process). distinct_nontrivial = distinct random sequences + distinct overlapping interleavings + clean Miri executions.",
     "technique": "model-based sequence checking (exhaustive small bounds) + recorded concurrent histories with an offline linearizability-condition checker + Miri many-seeds",
     "level_text": "Sequential UF: exhaustive for small bounds, random beyond, against a partition model after every op (min-id representative, find does not change the partition). Concurrent UF: thousands of short histories with real overlap (perturbation hooks between load and CAS and around Buffer resize), each checked for: final partition = closure of issued unions with min roots, link-once, and per-query bounds from the unions invoked-before-return / returned-before-call. Miri runs the same scenarios for UB and data races.",
-    "level_note": "The concurrent conditions are necessary, not sufficient, for linearizability; interleavings are sampled. Miri uses Tree Borrows (Stacked Borrows rejects ThreadPool::new's Box move, see DESIGN).",
+    "level_note": "The concurrent conditions are necessary, not sufficient, for linearizability; interleavings are sampled. Miri runs with the data-race detector and weak-memory emulation on and the experimental aliasing models off (see DESIGN §5).",
     "floors": {"quick": {"operations_overlapping_another_thread": 20000, "exhaustive_spaces_completed": 3, "miri_executions_clean": 6},
                "thorough": {"operations_overlapping_another_thread": 1000000, "exhaustive_spaces_completed": 4, "miri_executions_clean": 60}},
     "coverage_extra": lambda c, t: {"exhaustive": False, "exhaustive_subspace": "sequential op sequences: (ids,len) in {(2,5),(3,4),(4,3)} quick / {(2,7),(3,5),(4,4),(5,3)} thorough"},
-    "assumptions": ["logical clock is one global SeqCst counter", "Miri: Tree Borrows, leaks ignored"],
+    "assumptions": ["logical clock is one global SeqCst counter", "Miri: aliasing models off, data-race detector + weak memory emulation on, leaks ignored"],
 }
 PLANS["C19"] = {
     "jobs": c19_jobs,
@@ -338,7 +338,7 @@ PLANS["C19"] = {
     "level_note": "Interleavings are sampled (perturbation seeds, Miri seeds); unbounded liveness is restated as bounded progress.",
     "floors": {"quick": {"tasks": 20000, "rol_writes": 5000, "miri_executions_clean": 8},
                "thorough": {"tasks": 1000000, "rol_writes": 200000, "miri_executions_clean": 100}},
-    "assumptions": ["Miri: Tree Borrows, leaks ignored; pools are leaked (not dropped) inside Miri scenarios, drop is a separate witness"],
+    "assumptions": ["Miri: aliasing models off (Tree Borrows only for the ThreadPool::drop witness), data-race detector + weak memory on; pools are leaked (not dropped) inside Miri scenarios"],
 }
 
 NOT_APPLICABLE = {}
